@@ -79,8 +79,12 @@ PROPS = {
         assumptions=['trajectory time index strictly increasing (input precondition)']),
     'C06': dict(
         rules=[meas.meas_guard, meas.meas_dep, meas.meas_shape, meas.meas_cols,
-               meas.meas_jacobian],
-        decided=['absent time returns None before any data access',
+               meas.meas_jacobian,
+               lambda c: purity.pur_global(c, ('measurements', 'error_model', 'transform',
+                                               'earth', 'util'))],
+        decided=['no function on the measurement path keeps state in a module/class-level array '
+                 '(H for one call does not depend on earlier calls)',
+                 'absent time returns None before any data access',
                  'every attribute the residual depends on reaches H (lever arm), under the same '
                  'condition', 'matching dimensions of z, H, R in both altitude modes',
                  'residual is predicted minus measured', 'simulator/constructor column agreement',
@@ -122,8 +126,12 @@ PROPS = {
                    'and "never larger than the prior" as numerical facts (they follow '
                    'algebraically)', 'inputs not modified: decided under C19 (PUR-ARG)']),
     'C08': dict(
-        rules=[kal.vl_rules, kal.q_psd, lambda c: dtype.dtype_inherit(c, ('kalman', 'filters'))],
-        decided=['Van Loan block layout and transposition: expm([[F, Q],[0, -F^T]] dt), returns '
+        rules=[kal.vl_rules, kal.q_psd, lambda c: dtype.dtype_inherit(c, ('kalman', 'filters')),
+               lambda c: sched.sched_handover(c, (sched.FB, sched.FF)),
+               lambda c: sched.sched_progress(c, (sched.FB, sched.FF))],
+        decided=['the step handed to the discretisation is the interval between the rows that are '
+                 'actually propagated (cursor read only after the progress guard has adjusted it)',
+                 'Van Loan block layout and transposition: expm([[F, Q],[0, -F^T]] dt), returns '
                  '(E00, E01 E00^T)', 'process noise at the call site is G diag(q^2) G^T',
                  'step passed equals the interval of the averaged states'],
         undecided=['exactness of scipy.linalg.expm', 'symmetry/PSD of the computed product in '
@@ -164,6 +172,7 @@ PROPS = {
                layout.rec_order, kal.q_psd,
                lambda c: sched.sched_pair(c, (sched.FF,)),
                lambda c: sched.sched_handover(c, (sched.FF,)),
+               lambda c: sched.sched_progress(c, (sched.FF,)),
                idxdom.idx_domain],
         decided=['positional cursors address rows of their own time axis only (the readings '
                  'averaged for the sensor-state coupling come from the propagated interval)',
